@@ -102,3 +102,23 @@ def kill_stragglers():
     drain()
     take_errors()
     return n
+
+
+def fire_deadline(evt):
+    """Raise a call's deadline event exactly as the code under test does: by running the real
+    scales.sink.ClientTimeoutSink._TimeoutHelper (on a bare object standing for the sink and a sink stack that
+    swallows the TimeoutError message — the harnesses that use this observe the hops *below* the timeout sink)."""
+    from scales.sink import ClientTimeoutSink
+
+    class _Varz(object):
+        @staticmethod
+        def timeouts():
+            pass
+
+    class _Sink(object):
+        _varz = _Varz
+
+    class _Stack(object):
+        def AsyncProcessResponseMessage(self, msg):
+            pass
+    ClientTimeoutSink._TimeoutHelper(_Sink(), evt, _Stack())
